@@ -207,3 +207,12 @@ Theorem deque_iter_wait_no_lost_cancel :
     prog t = M.OWaiter (w_dwait k c rv cap) -> M.thr s t = M.Parked -> M.ended s t = false.
 Proof. exact deque_wait_no_lost_cancel. Qed.
 Print Assumptions deque_iter_wait_no_lost_cancel.
+
+(* ForcePushFront/ForcePushBack (evict at the opposite end when at capacity, then insert, the insertion point
+   read after the eviction) keep the ring well-formed - as every step does (dreach -> ring), so every theorem
+   above holds on deques filled or changed by Force pushes. *)
+Theorem deque_force_push_keeps_ring :
+  forall vars s v back full, dreach vars s ->
+    exists l, ring (sd (fst (dstep s (LForcePush v back full)))) l.
+Proof. intros vars s v back full H. apply force_push_ring, (dreach_inv _ _ H). Qed.
+Print Assumptions deque_force_push_keeps_ring.
